@@ -1,0 +1,44 @@
+//! Read-only introspection used by external verification harnesses.
+//!
+//! Only compiled with `--cfg futures_intrusive_verif`. Nothing in here is
+//! part of the public API of the crate and nothing in here mutates state.
+
+use alloc::vec::Vec;
+use core::task::Waker;
+
+pub use crate::intrusive_double_linked_list::{LinkedList, ListNode};
+pub use crate::intrusive_pairing_heap::{HeapNode, PairingHeap};
+
+/// Plain description of a wait node (list or heap node embedded in a future)
+#[derive(Debug, Clone, PartialEq, Eq)]
+pub struct NodeInfo {
+    /// Address of the node
+    pub addr: usize,
+    /// Numeric code of the nodes poll state (declaration order of the enum)
+    pub state: u8,
+    /// Data pointer of the stored waker, 0 if there is none
+    pub waker: usize,
+    /// Primitive specific payload: required permits, state id, expiry,
+    /// or 1/0 for "send node holds a value"
+    pub extra: u64,
+    /// Raw links of the node (list: prev, next, 0, 0;
+    /// heap: parent, prev, next, first_child)
+    pub links: [usize; 4],
+}
+
+/// Plain description of the complete state of a primitive
+#[derive(Debug, Clone, PartialEq, Eq, Default)]
+pub struct Snapshot {
+    /// Primitive specific flags (is_fair, is_locked, is_set, is_closed, ...)
+    pub flags: Vec<(&'static str, u64)>,
+    /// Wait queues: oldest waiter first. Heap: pre-order traversal.
+    pub queues: Vec<(&'static str, Vec<NodeInfo>)>,
+}
+
+/// Returns the data pointer of an optional waker
+pub fn waker_id(w: &Option<Waker>) -> usize {
+    match w {
+        Some(w) => w.data() as usize,
+        None => 0,
+    }
+}
